@@ -92,6 +92,26 @@ def replay(case):
         out.append(('sampling:distinct', 'returned bit strings are not distinct'))
     if np.max(np.abs(np.asarray(probs) - np.array(want_freq))) > 1e-12 or abs(float(np.sum(probs)) - 1) > 1e-12:
         out.append(('sampling:frequencies', 'frequencies %r, predicted %r' % (list(probs), want_freq)))
+    # mixed dtypes: a real state with phase gates diag(1, i) on the qubits 1.. (first core real, the others complex).
+    # Phases do not change the Born probabilities of the computational basis, so the prediction is the same.
+    if not out and n >= 2 and all(np.isrealobj(c) for c in t.cores):
+        t2 = t.copy()
+        for k in range(1, n):
+            c = t2.cores[k].astype(complex)
+            c[:, 1, :, :] *= 1j
+            t2.cores[k] = c
+        calls.clear()
+        try:
+            with mock.patch('numpy.random.rand', side_effect=fake_rand):
+                s2, p2 = qc.sampling(t2, meas, len(rows))
+            rows2 = [tuple(int(x) for x in r) for r in np.asarray(s2).reshape(len(s2), -1)]
+            if rows2 != want_rows or np.max(np.abs(np.asarray(p2) - np.array(want_freq))) > 1e-12:
+                out.append(('sampling:mixed-dtype', 'real state with phase gates on qubits 1.. (real first core, complex other cores): bit strings %r '
+                            'frequencies %r, predicted %r %r (n=%d, meas=%r)' % (rows2, list(p2), want_rows, want_freq, n, meas)))
+        except _Unbound:
+            pass
+        except Exception as e:
+            out.append(('sampling:mixed-dtype:exception:%s' % type(e).__name__, repr(e)))
     out += convergence(qc, t, meas, case, n)
     return out
 
